@@ -13,6 +13,13 @@ MUTATIONS = [
      "edits": [(R + "git/canonical.rs", "                if base == *other || base == *head {\n                    *candidates.entry(base).or_default() += 1;\n                }", "                *candidates.entry(base).or_default() += 1;")]},
     {"id": "m39c", "prop": "C03", "expect": r"advance:descendant|diverge",
      "edits": [(R + "git/canonical.rs", "            if base == *longest {\n                // `head` is a successor of `longest`. Update `longest`.", "            if base == *longest || base != **head {\n                // `head` is a successor of `longest`. Update `longest`.")]},
+    # ---- C13 (findings F21, F22 reverted; parser made partial)
+    {"id": "m51a", "prop": "C13", "expect": r"Streams::open:unwrap:Option::expect",
+     "edits": [(N + "wire/protocol.rs", "            if let Some(channels) = self.register(id, config) {\n                return (id, channels);\n            }",
+                "            let channels = self.register(id, config).expect(\"Streams::open: stream was already open\");\n            return (id, channels);")]},
+    {"id": "m51b", "prop": "C13", "expect": r"entries:dbread:Row::read<radicle::node::Address>",
+     "edits": [(R + "node/address/store.rs", "            // Nb. See `addresses_of`: skip stored addresses that don't parse back.\n            let Ok(addr) = row.try_read::<Address, _>(\"value\") else {\n                continue;\n            };",
+                "            let addr = row.read::<Address, _>(\"value\");")]},
     # ---- C25
     {"id": "m50a", "prop": "C25", "expect": r"announcer:local:synced_with|announcer:local:continue",
      "edits": [(R + "node/sync/announce.rs", "        if node == self.local_node {\n            return ControlFlow::Continue(self.progress());\n        }\n", "")]},
